@@ -205,6 +205,30 @@ Definition tr_WriteString (data : (list N)) (tag : Z) (out : list N) : ctl (list
     (fun out : (list N) =>
     Return (out, false))).
 
+Definition k_codec_FLOAT : Z := 4.
+(* tars/protocol/codec/codec.go: func Buffer.WriteFloat32 *)
+Definition tr_WriteFloat32 (data : Z) (tag : Z) (out : list N) : ctl (list N) (list N * bool) :=
+  let err : bool := false in
+    go_call (tr_WriteHead k_codec_FLOAT tag out) (fun r__ => let '(out, err) := r__ in
+    bindc (if (negb (Bool.eqb err false))
+      then Return (out, err)
+      else Next out)
+    (fun out : (list N) =>
+    let out := out ++ (go_emit_u32 data) in let err := false in
+    Return (out, err))).
+
+Definition k_codec_DOUBLE : Z := 5.
+(* tars/protocol/codec/codec.go: func Buffer.WriteFloat64 *)
+Definition tr_WriteFloat64 (data : Z) (tag : Z) (out : list N) : ctl (list N) (list N * bool) :=
+  let err : bool := false in
+    go_call (tr_WriteHead k_codec_DOUBLE tag out) (fun r__ => let '(out, err) := r__ in
+    bindc (if (negb (Bool.eqb err false))
+      then Return (out, err)
+      else Next out)
+    (fun out : (list N) =>
+    let out := out ++ (go_emit_u64 data) in let err := false in
+    Return (out, err))).
+
 Definition k_endpoint_EStaticWeight : Z := 1.
 Definition k_selector_minStaticWeightLimit : Z := 10.
 Definition k_selector_maxStaticWeightLimit : Z := 100.
@@ -745,6 +769,64 @@ Definition tr_ReadString (fuel : nat) (data : (list N)) (tag : Z) (require : boo
     (fun st : go_reader * (list N) * bool => let '(rd, data, err) := st in
     Return (rd, data, false))))).
 
+(* tars/protocol/codec/codec.go: func Reader.ReadFloat32 *)
+Definition tr_ReadFloat32 (fuel : nat) (data : Z) (tag : Z) (require : bool) (rd : go_reader) : ctl unit (go_reader * Z * bool) :=
+  go_call (tr_SkipToNoCheck fuel tag require rd) (fun r__ => let '(rd, have, ty, err) := r__ in
+    bindc (if (negb (Bool.eqb err false))
+      then Return (rd, data, err)
+      else Next rd)
+    (fun rd : go_reader =>
+    bindc (if (negb have)
+      then Return (rd, data, false)
+      else Next rd)
+    (fun rd : go_reader =>
+    let tag__1 := ty in
+    bindc (if (tag__1 =? 12) then let data := 0 in
+        Next (rd, data, err)
+      else (if (tag__1 =? 4) then let tmp : Z := 0 in
+        let '(rd, tmp, err) := (go_rd_u32 rd) in
+        let data := tmp in
+        Next (rd, data, err)
+      else (Return (rd, data, true))))
+    (fun st : go_reader * Z * bool => let '(rd, data, err) := st in
+    bindc (if (negb (Bool.eqb err false))
+      then let err := true in
+        Next (rd, err)
+      else Next (rd, err))
+    (fun st : go_reader * bool => let '(rd, err) := st in
+    Return (rd, data, err)))))).
+
+(* tars/protocol/codec/codec.go: func Reader.ReadFloat64 *)
+Definition tr_ReadFloat64 (fuel : nat) (data : Z) (tag : Z) (require : bool) (rd : go_reader) : ctl unit (go_reader * Z * bool) :=
+  go_call (tr_SkipToNoCheck fuel tag require rd) (fun r__ => let '(rd, have, ty, err) := r__ in
+    bindc (if (negb (Bool.eqb err false))
+      then Return (rd, data, err)
+      else Next rd)
+    (fun rd : go_reader =>
+    bindc (if (negb have)
+      then Return (rd, data, false)
+      else Next rd)
+    (fun rd : go_reader =>
+    let tag__1 := ty in
+    bindc (if (tag__1 =? 12) then let data := 0 in
+        Next (rd, data, err)
+      else (if (tag__1 =? 4) then let tmp : Z := 0 in
+        let '(rd, tmp, err) := (go_rd_u32 rd) in
+        let data := (go_f32_to_f64 tmp) in
+        Next (rd, data, err)
+      else (if (tag__1 =? 5) then let tmp_1 : Z := 0 in
+        let '(rd, tmp_1, err) := (go_rd_u64 rd) in
+        let data := tmp_1 in
+        Next (rd, data, err)
+      else (Return (rd, data, true)))))
+    (fun st : go_reader * Z * bool => let '(rd, data, err) := st in
+    bindc (if (negb (Bool.eqb err false))
+      then let err := true in
+        Next (rd, err)
+      else Next (rd, err))
+    (fun st : go_reader * bool => let '(rd, err) := st in
+    Return (rd, data, err)))))).
+
 (* tars/protocol/codec/codec.go: func Reader.ReadSliceUint8 *)
 Definition tr_ReadSliceUint8 (data : (list N)) (len : Z) (require : bool) (rd : go_reader) : ctl unit (go_reader * (list N) * bool) :=
   bindc (if (if (len <? 0) then true else ((go_rd_len rd) <? len))
@@ -792,6 +874,65 @@ Fixpoint tr_genRequestID_loop (fuel : nat) (rd : Z) {struct fuel} : ctl Z (Z * Z
     Next rd)
     (fun rd : Z => tr_genRequestID_loop fuel rd)
   end.
+
+(* tars/selector/roundrobin/round_robin.go: func RoundRobin.Select *)
+Definition tr_rr_Select (r_endpoints : (list go_endpoint_Endpoint)) (r_lastPosition : Z) (r_staticWeightRouterCache : (list Z)) (r_lastStaticWeightPosition : Z) : ctl unit (go_endpoint_Endpoint * bool * Z * Z) :=
+  let ep : go_endpoint_Endpoint := (Build_go_endpoint_Endpoint (@nil N) 0 0 0 0 0 0 0 0 (@nil N) (@nil N) (@nil N) (@nil N) (@nil N)) in
+    if ((go_len r_endpoints) =? 0)
+    then Return (ep, true, r_lastPosition, r_lastStaticWeightPosition)
+    else if (negb ((go_len r_staticWeightRouterCache) =? 0))
+    then let r_lastStaticWeightPosition := (wrapU 64 (r_lastStaticWeightPosition + 1)) in let idx_1 := r_lastStaticWeightPosition in
+      if (andb (andb (negb ((wrapU 64 (go_len r_staticWeightRouterCache)) =? 0)) (go_in_range r_staticWeightRouterCache (Z.rem idx_1 (wrapU 64 (go_len r_staticWeightRouterCache))))) (go_in_range r_endpoints (go_nth r_staticWeightRouterCache (Z.rem idx_1 (wrapU 64 (go_len r_staticWeightRouterCache))) 0))) then (Return ((go_nth r_endpoints (go_nth r_staticWeightRouterCache (Z.rem idx_1 (wrapU 64 (go_len r_staticWeightRouterCache))) 0) (Build_go_endpoint_Endpoint (@nil N) 0 0 0 0 0 0 0 0 (@nil N) (@nil N) (@nil N) (@nil N) (@nil N))), false, r_lastPosition, r_lastStaticWeightPosition)) else Panic
+    else let r_lastPosition := (wrapU 64 (r_lastPosition + 1)) in let idx := r_lastPosition in
+    if (andb (negb ((wrapU 64 (go_len r_endpoints)) =? 0)) (go_in_range r_endpoints (Z.rem idx (wrapU 64 (go_len r_endpoints))))) then (let ep := (go_nth r_endpoints (Z.rem idx (wrapU 64 (go_len r_endpoints))) (Build_go_endpoint_Endpoint (@nil N) 0 0 0 0 0 0 0 0 (@nil N) (@nil N) (@nil N) (@nil N) (@nil N))) in
+    Return (ep, false, r_lastPosition, r_lastStaticWeightPosition)) else Panic.
+
+(* tars/selector/modhash/modhash.go: func ModHash.Select *)
+Definition tr_mh_Select (m_endpoints : (list go_endpoint_Endpoint)) (m_staticWeightRouterCache : (list Z)) (hashCode_ : Z) : ctl unit (go_endpoint_Endpoint * bool) :=
+  let ep : go_endpoint_Endpoint := (Build_go_endpoint_Endpoint (@nil N) 0 0 0 0 0 0 0 0 (@nil N) (@nil N) (@nil N) (@nil N) (@nil N)) in
+    if ((go_len m_endpoints) =? 0)
+    then Return (ep, true)
+    else let hashCode := hashCode_ in
+    if (negb ((go_len m_staticWeightRouterCache) =? 0))
+    then if (andb (negb ((wrapU 32 (go_len m_staticWeightRouterCache)) =? 0)) (go_in_range m_staticWeightRouterCache (Z.rem hashCode (wrapU 32 (go_len m_staticWeightRouterCache))))) then (let idx := (go_nth m_staticWeightRouterCache (Z.rem hashCode (wrapU 32 (go_len m_staticWeightRouterCache))) 0) in
+      if (go_in_range m_endpoints idx) then (Return ((go_nth m_endpoints idx (Build_go_endpoint_Endpoint (@nil N) 0 0 0 0 0 0 0 0 (@nil N) (@nil N) (@nil N) (@nil N) (@nil N))), false)) else Panic) else Panic
+    else if (andb (negb ((wrapU 32 (go_len m_endpoints)) =? 0)) (go_in_range m_endpoints (Z.rem hashCode (wrapU 32 (go_len m_endpoints))))) then (Return ((go_nth m_endpoints (Z.rem hashCode (wrapU 32 (go_len m_endpoints))) (Build_go_endpoint_Endpoint (@nil N) 0 0 0 0 0 0 0 0 (@nil N) (@nil N) (@nil N) (@nil N) (@nil N))), false)) else Panic.
+
+(* tars/selector/random/random.go: func Random.Select *)
+Definition tr_rnd_Select (r_endpoints : (list go_endpoint_Endpoint)) (r_staticWeightRouterCache : (list Z)) (draw_eps : Z) (draw_cache : Z) : ctl unit (go_endpoint_Endpoint * bool) :=
+  let ep : go_endpoint_Endpoint := (Build_go_endpoint_Endpoint (@nil N) 0 0 0 0 0 0 0 0 (@nil N) (@nil N) (@nil N) (@nil N) (@nil N)) in
+    if ((go_len r_endpoints) =? 0)
+    then Return (ep, true)
+    else if (negb ((go_len r_staticWeightRouterCache) =? 0))
+    then if (go_in_range r_staticWeightRouterCache draw_cache) then (let idx := (go_nth r_staticWeightRouterCache draw_cache 0) in
+      if (go_in_range r_endpoints idx) then (Return ((go_nth r_endpoints idx (Build_go_endpoint_Endpoint (@nil N) 0 0 0 0 0 0 0 0 (@nil N) (@nil N) (@nil N) (@nil N) (@nil N))), false)) else Panic) else Panic
+    else if (go_in_range r_endpoints draw_eps) then (Return ((go_nth r_endpoints draw_eps (Build_go_endpoint_Endpoint (@nil N) 0 0 0 0 0 0 0 0 (@nil N) (@nil N) (@nil N) (@nil N) (@nil N))), false)) else Panic.
+
+(* tars/selector/consistenthash/consistenthash_new.go: func ConsistentHash.FindInt32 *)
+Definition tr_ch_FindInt32 (key : Z) (c_hashRing : (list (Z * go_endpoint_Endpoint))) (c_sortedKeys : (list Z)) : ctl unit (go_endpoint_Endpoint * bool) :=
+  let point : go_endpoint_Endpoint := (Build_go_endpoint_Endpoint (@nil N) 0 0 0 0 0 0 0 0 (@nil N) (@nil N) (@nil N) (@nil N) (@nil N)) in
+    if ((go_len c_sortedKeys) =? 0)
+    then Return (point, false)
+    else if (go_search_ok (go_len c_sortedKeys) (fun x : Z => if (go_in_range c_sortedKeys x) then Some (key <=? (go_nth c_sortedKeys x 0)) else None)) then (let index := (go_search (go_len c_sortedKeys) (fun x : Z => if (go_in_range c_sortedKeys x) then Some (key <=? (go_nth c_sortedKeys x 0)) else None)) in
+    bindc (if ((go_len c_sortedKeys) <=? index)
+      then let index := 0 in
+        Next index
+      else Next index)
+    (fun index : Z =>
+    if (go_in_range c_sortedKeys index) then (Return ((go_map_get c_hashRing (go_nth c_sortedKeys index 0) (Build_go_endpoint_Endpoint (@nil N) 0 0 0 0 0 0 0 0 (@nil N) (@nil N) (@nil N) (@nil N) (@nil N))), true)) else Panic)) else Panic.
+
+(* tars/util/rtimer/timewheel.go: func TimeWheel.After, statements "^" .. "pos = (tw.currPos + pos) % len(tw.timeWheel)" *)
+Definition tr_tw_After_pos (timeout : Z) (tw_t : Z) (tw_maxT : Z) (tw_currPos : Z) (wheel_size : Z) : ctl Z unit :=
+  if (tw_maxT <=? timeout)
+    then Panic
+    else if (negb (tw_t =? 0)) then (let pos := (wrapS 64 (Z.quot timeout tw_t)) in
+    bindc (if (0 <? pos)
+      then let pos := (wrapS 64 (pos - 1)) in
+        Next pos
+      else Next pos)
+    (fun pos : Z =>
+    if (negb (wheel_size =? 0)) then (let pos := (Z.rem (wrapS 64 (tw_currPos + pos)) wheel_size) in
+    Next pos) else Panic)) else Panic.
 
 (* struct github.com/TarsCloud/TarsGo/tars/protocol/res/endpointf.EndpointF *)
 Record go_endpointf_EndpointF := { go_endpointf_EndpointF_Host : (list N);
@@ -915,6 +1056,38 @@ Definition tr_BSWL_scale (endpoints : (list go_endpoint_Endpoint)) (maxRange : Z
       Next (totalWeight, weightToId, idToWeight, staticWeightRouterCache))) else Panic) (totalWeight, weightToId, idToWeight, staticWeightRouterCache))
     (fun st : Z * (list go_selector_pair) * (list (Z * Z)) * (list Z) => let '(totalWeight, weightToId, idToWeight, staticWeightRouterCache) := st in
     Next (totalWeight, weightToId, idToWeight, staticWeightRouterCache))) else Panic.
+
+(* tars/selector/selector.go: func BuildStaticWeightList, statements "for i := 0; i < totalWeight; i++ {" .. "return staticWeightRouterCache" *)
+Definition tr_BSWL_rounds (endpoints : (list go_endpoint_Endpoint)) (totalWeight : Z) (weightToId : (list go_selector_pair)) (idToWeight : (list (Z * Z))) (staticWeightRouterCache : (list Z)) (ep_string : go_endpoint_Endpoint -> list N) : ctl unit (list Z) :=
+  bindc (go_count 0 totalWeight (fun (i : Z) => fun st : (list go_selector_pair) * (list Z) => let '(weightToId, staticWeightRouterCache) := st in
+      match go_sort_by (fun (a__ b__ : go_selector_pair) => match (if ((go_selector_pair_first a__) =? (go_selector_pair_first b__))
+          then if (andb (go_in_range endpoints (go_selector_pair_second a__)) (go_in_range endpoints (go_selector_pair_second b__))) then (Return (go_bytes_ltb (ep_string (go_nth endpoints (go_selector_pair_second a__) (Build_go_endpoint_Endpoint (@nil N) 0 0 0 0 0 0 0 0 (@nil N) (@nil N) (@nil N) (@nil N) (@nil N)))) (ep_string (go_nth endpoints (go_selector_pair_second b__) (Build_go_endpoint_Endpoint (@nil N) 0 0 0 0 0 0 0 0 (@nil N) (@nil N) (@nil N) (@nil N) (@nil N)))))) else Panic
+          else Return ((go_selector_pair_first a__) <? (go_selector_pair_first b__)) : ctl unit bool) with Return r__ => Some r__ | _ => None end) weightToId with
+      | Some weightToId =>
+      let mulTemp : (list go_selector_pair) := (@nil go_selector_pair) in
+      let first := true in
+      if ((-9223372036854775808) <? 0) then (bindc (go_count_down (wrapS 64 ((go_len weightToId) - 1)) 0 (fun (begin : Z) => fun st : (list Z) * (list go_selector_pair) * bool => let '(staticWeightRouterCache, mulTemp, first) := st in
+        if (go_in_range weightToId begin) then (let mIter := (go_nth weightToId begin (Build_go_selector_pair 0 0)) in
+        bindc (if first
+          then let first := false in
+            let staticWeightRouterCache := staticWeightRouterCache ++ [(go_selector_pair_second mIter)] in
+            let mulTemp := mulTemp ++ [{|
+      go_selector_pair_first := (wrapS 64 ((wrapS 64 ((go_selector_pair_first mIter) - totalWeight)) + (go_map_get idToWeight (go_selector_pair_second mIter) 0)));
+      go_selector_pair_second := (go_selector_pair_second mIter) |}] in
+            Next (staticWeightRouterCache, mulTemp, first)
+          else let mulTemp := mulTemp ++ [{|
+      go_selector_pair_first := (wrapS 64 ((go_selector_pair_first mIter) + (go_map_get idToWeight (go_selector_pair_second mIter) 0)));
+      go_selector_pair_second := (go_selector_pair_second mIter) |}] in
+            Next (staticWeightRouterCache, mulTemp, first))
+        (fun st : (list Z) * (list go_selector_pair) * bool => let '(staticWeightRouterCache, mulTemp, first) := st in
+        Next (staticWeightRouterCache, mulTemp, first))) else Panic) (staticWeightRouterCache, mulTemp, first))
+      (fun st : (list Z) * (list go_selector_pair) * bool => let '(staticWeightRouterCache, mulTemp, first) := st in
+      let weightToId := mulTemp in
+      Next (weightToId, staticWeightRouterCache))) else Panic
+      | None => Panic
+      end) (weightToId, staticWeightRouterCache))
+    (fun st : (list go_selector_pair) * (list Z) => let '(weightToId, staticWeightRouterCache) := st in
+    Return staticWeightRouterCache).
 
 (* tars/util/endpoint/parse.go: func Parse, statements "isTcp := int32(0)" .. "e := Endpoint{" *)
 Definition tr_Parse_build (proto : (list N)) (host : (list N)) (bind : (list N)) (port : Z) (timeout : Z) (grid : Z) (qos : Z) (weight : Z) (weightType : Z) (authType : Z) : ctl go_endpoint_Endpoint go_endpoint_Endpoint :=
